@@ -494,3 +494,17 @@ M('C07', 'revert F13: matmul without alignment check', 'function.py', "        i
 M('C02', 'LoopSum compiles in place before out exists', 'evaluable.py', "        if out_block_id > builder.get_block_id(self.index):\n            # The loop body comes before the definition of `out`.\n            return NotImplemented\n        if mode == 'assign':", "        if mode == 'assign':", rule='R02.3')
 M('C20', 'locate: maxdist guard compares the tol dimension', 'SI.py', "        if not (dimmaxdist == Dimensionless and maxdist is None or dimmaxdist == dimgeom):", "        if not (dimmaxdist == Dimensionless and maxdist is None or dimtol == dimgeom):", rule='R20.1')
 M('C20', 'mod moved to the quotient rule', 'SI.py', "    @register(operator.mod)\n    @register(operator.sub)\n    def __add_like", "    @register(operator.sub)\n    def __add_like", expect='silent')
+M('C07', 'revert F15: vdot broadcasts its operands', 'function.py', "        a = Array.cast(a)\n        b = Array.cast(b)\n        if a.shape != b.shape:\n            if a.size != b.size:\n                raise ValueError(f'shapes {a.shape} and {b.shape} differ in size')\n            a = numpy.ravel(a)\n            b = numpy.ravel(b)\n        return numpy.sum(numpy.conjugate(a) * b, range(a.ndim))",
+  "        a, b = broadcast_arrays(a, b)\n        return numpy.sum(numpy.conjugate(a) * b, range(a.ndim))", rule='R07.7')
+M('C07', 'vdot broadcasts before comparing sizes', 'function.py', "        a = Array.cast(a)\n        b = Array.cast(b)\n        if a.shape != b.shape:\n            if a.size != b.size:", "        a, b = broadcast_arrays(a, b)\n        if a.shape != b.shape:\n            if a.size != b.size:", rule='R07.7')
+M('C07', 'dot without alignment check', 'function.py', "        if a.shape[-1] != b.shape[-1 if b.ndim == 1 else -2]:\n            raise ValueError(f'shapes {a.shape} and {b.shape} are not aligned')\n        if b.ndim > 1:", "        if b.ndim > 1:", rule='R07.7')
+M('C07', 'benign: vdot size check written with numpy.size', 'function.py', "            if a.size != b.size:\n                raise ValueError(f'shapes {a.shape} and {b.shape} differ in size')", "            na, nb = a.size, b.size\n            if na != nb or a.size != b.size:\n                raise ValueError(f'shapes {a.shape} and {b.shape} differ in size')", expect='silent')
+M('C07', 'benign: dot guard with the operands swapped', 'function.py', "        if a.shape[-1] != b.shape[-1 if b.ndim == 1 else -2]:\n            raise ValueError(f'shapes {a.shape} and {b.shape} are not aligned')\n        if b.ndim > 1:", "        if b.shape[-1 if b.ndim == 1 else -2] != a.shape[-1]:\n            raise ValueError(f'shapes {a.shape} and {b.shape} are not aligned')\n        if b.ndim > 1:", expect='silent')
+M('C07', 'revert F16: transpose stores raw axes', 'function.py', "        if axes is None:\n            return _Transpose(array, tuple(reversed(range(array.ndim))))\n        axes = tuple(numeric.normdim(array.ndim, axis) for axis in axes)\n        if sorted(axes) != list(range(array.ndim)):\n            raise ValueError(\"axes don't match array\")\n        return _Transpose(array, axes)",
+  "        return _Transpose(array, tuple(reversed(range(array.ndim)) if axes is None else axes))", rule='R07.8')
+M('C07', 'transpose normalises but never checks for repeats', 'function.py', "        if sorted(axes) != list(range(array.ndim)):\n            raise ValueError(\"axes don't match array\")\n        return _Transpose(array, axes)", "        return _Transpose(array, axes)", rule='R07.8')
+M('C07', 'transpose checks but does not normalise', 'function.py', "        axes = tuple(numeric.normdim(array.ndim, axis) for axis in axes)\n        if sorted(axes) != list(range(array.ndim)):", "        axes = tuple(axes)\n        if sorted(a % array.ndim for a in axes) != list(range(array.ndim)):", rule='R07.8')
+M('C07', '_Transpose._end without normdim', 'function.py', "        axes = tuple(numeric.normdim(array.ndim, axis) for axis in axes)\n        if all(a == b", "        axes = tuple(axes)\n        if all(a == b", rule='R07.8')
+M('C07', '_Transpose._end without duplicate check', 'function.py', "        if len(trans) != array.ndim:\n            raise Exception('duplicate axes')\n        return cls(", "        return cls(", rule='R07.8')
+M('C07', 'benign: transpose permutation check via set', 'function.py', "        if sorted(axes) != list(range(array.ndim)):\n            raise ValueError(\"axes don't match array\")", "        if len(axes) != array.ndim or len(set(axes)) != array.ndim:\n            raise ValueError(\"axes don't match array\")", expect='silent')
+M('C07', 'benign: transpose normalises into a new name', 'function.py', "        axes = tuple(numeric.normdim(array.ndim, axis) for axis in axes)\n        if sorted(axes) != list(range(array.ndim)):\n            raise ValueError(\"axes don't match array\")\n        return _Transpose(array, axes)", "        perm = tuple(numeric.normdim(array.ndim, axis) for axis in axes)\n        if sorted(perm) != list(range(array.ndim)):\n            raise ValueError(\"axes don't match array\")\n        return _Transpose(array, perm)", expect='silent')
